@@ -4,12 +4,12 @@
 # pinned suite still passes, the demonstration fails with it and passes without it.  Then copies
 # it to /verif/seeded/<seed-name>/ .  Removes the scratch worktree afterwards.
 set -u
-NAME=$1; PROP=$2; SRC=$3; FEAT=${4:-doc}
+NAME=$1; PROP=$2; SRC=$3; FEAT=${4:-doc}; WHERE=${5:-main}
 OUT=/verif/seeded/$NAME
 WT=/tmp/confirm_$NAME
 mkdir -p "$OUT"
 cp "$SRC/mutant.diff" "$OUT/patch.diff"
-cp "$SRC/tests/seeded_demo.rs" "$OUT/seeded_demo.rs"
+if [ "$WHERE" = astro ]; then cp "$SRC/astronimical_quantities/tests/seeded_demo.rs" "$OUT/seeded_demo.rs"; DEMO_DST=astronimical_quantities/tests/seeded_demo.rs; DEMO_CMD="cargo test --offline -p astronomical-quantities --test seeded_demo"; else cp "$SRC/tests/seeded_demo.rs" "$OUT/seeded_demo.rs"; DEMO_DST=tests/seeded_demo.rs; DEMO_CMD="cargo test --offline --features $FEAT --test seeded_demo"; fi
 [ -f "$SRC/NOTES.md" ] && cp "$SRC/NOTES.md" "$OUT/NOTES.agent.md"
 git -C /repo worktree remove --force "$WT" 2>/dev/null
 git -C /repo worktree add -q "$WT" HEAD || exit 2
@@ -25,14 +25,14 @@ SUITE_FAILS=$(grep -E "^test [^ ]+ \.\.\. FAILED" "$OUT/suite.out" | grep -v "ma
 PASSED=$(grep -E "^test result" "$OUT/suite.out" | sed -E 's/.* ([0-9]+) passed.*/\1/' | paste -sd+ | bc)
 echo "suite: passed=$PASSED (baseline 65 stable + doc tests)" >>"$LOG"
 rm -f "$OUT/suite.out"
-cp "$OUT/seeded_demo.rs" tests/seeded_demo.rs
+mkdir -p "$(dirname $DEMO_DST)"; cp "$OUT/seeded_demo.rs" "$DEMO_DST"
 echo "== demo WITH the change (features: $FEAT)" >>"$LOG"
-cargo test --offline --features "$FEAT" --test seeded_demo 2>&1 | grep -E "^test |^test result|^error" >>"$LOG"
-cargo test --offline --features "$FEAT" --test seeded_demo >/dev/null 2>&1; WITH=$?
+$DEMO_CMD 2>&1 | grep -E "^test |^test result|^error" >>"$LOG"
+$DEMO_CMD >/dev/null 2>&1; WITH=$?
 git apply -R "$OUT/patch.diff"
 echo "== demo WITHOUT the change" >>"$LOG"
-cargo test --offline --features "$FEAT" --test seeded_demo 2>&1 | grep -E "^test |^test result|^error" >>"$LOG"
-cargo test --offline --features "$FEAT" --test seeded_demo >/dev/null 2>&1; WITHOUT=$?
+$DEMO_CMD 2>&1 | grep -E "^test |^test result|^error" >>"$LOG"
+$DEMO_CMD >/dev/null 2>&1; WITHOUT=$?
 cd /
 git -C /repo worktree remove --force "$WT"
 echo "suite_new_failures=$SUITE_FAILS demo_with_change_rc=$WITH demo_without_change_rc=$WITHOUT" | tee -a "$LOG"
